@@ -6,7 +6,7 @@
                    on_timeout : list of [id; act; raises], act = [] | [[who; event]], who = [] | [model]
                    enter, exit : list of [id; [] | [event]]
      transitions : list of [event; src; dst option; condition outcome]
-     history     : list of [0; model; event] | [1; dt] | [2; state; timeout]
+     history     : list of [0; model; event] | [1; dt] | [2; state; timeout] | [3; state; on_timeout]
    answer  := [1; [1; 1]]                          construction raised AttributeError
             | [1; [0; steps; verdict]]             steps of the run, spec_C17 on the model's own trace
             | [1; [2; verdict]]                    answer to request 1
@@ -51,6 +51,7 @@ Definition d_top (x : sx) : option top :=
   | L [N 0; N m; N e] => Some (HEvent m e)
   | L [N 1; N dt] => Some (HAdvance dt)
   | L [N 2; N s; N v] => Some (HSetTimeout s v)
+  | L [N 3; N s; l] => do l' <- d_list d_ocb l; Some (HSetHandlers s l')
   | _ => None
   end.
 
